@@ -46,16 +46,34 @@ def eval_common(g):
 
 
 def g_eval(repo):
+    """evaluators; the three clause dispatchers appear as callee contracts (R5) and are verified in group eval_disp:
+    Verus rejects the mutual recursion through fn items passed to generic callees, so the cycle is cut at the
+    contracts (partial correctness; termination is not proved)."""
     g = GroupBuild('eval', repo)
     eval_common(g)
     E = RULES + 'eval.rs'
     g.fn(None, E, 'eval_conjunction_clauses', spec='eval_conjunction_clauses.spec', stub=True)
     g.fn(None, E, 'eval_general_block_clause', spec='eval_general_block_clause.spec', stub=True)
-    g.fn(None, E, 'eval_when_clause', spec='clause_stub.spec', stub=True)
-    g.fn(None, E, 'eval_rule_clause', spec='clause_stub.spec', stub=True)
+    for f in ('eval_when_clause', 'eval_rule_clause', 'eval_guard_clause'):
+        g.fn(None, E, f, spec='clause_stub.spec', stub=True)
     g.fn('U-named', E, 'eval_guard_named_clause', spec='eval_guard_named_clause.spec', props=['C01', 'C02', 'C03', 'C08'])
+    g.fn('U-when', E, 'eval_when_condition_block', spec='eval_when_condition_block.spec', props=['C01', 'C02', 'C08'])
     g.fn('U-rule', E, 'eval_rule', spec='eval_rule.spec', props=['C01', 'C02', 'C04', 'C08'])
+    g.fn('U-file', E, 'eval_rules_file', spec='eval_rules_file.spec', props=['C01', 'C02', 'C04', 'C08', 'C09'])
     return g
 
 
-GROUPS = {'exit': g_exit, 'eval': g_eval}
+def g_eval_disp(repo):
+    g = GroupBuild('eval_disp', repo)
+    eval_common(g)
+    E = RULES + 'eval.rs'
+    for f in ('eval_guard_access_clause', 'eval_guard_named_clause', 'eval_guard_block_clause', 'eval_parameterized_rule_call',
+              'eval_type_block_clause', 'eval_when_condition_block'):
+        g.fn(None, E, f, spec='clause_stub.spec', stub=True)
+    g.fn('U-disp-when', E, 'eval_when_clause', spec='dispatch3.spec', props=['C02', 'C08'])
+    g.fn('U-disp-guard', E, 'eval_guard_clause', spec='dispatch.spec', props=['C02', 'C08'])
+    g.fn('U-disp-rule', E, 'eval_rule_clause', spec='dispatch2.spec', props=['C02', 'C08'])
+    return g
+
+
+GROUPS = {'exit': g_exit, 'eval': g_eval, 'eval_disp': g_eval_disp}
